@@ -65,6 +65,10 @@ func opsToStrings(ops []Op) []string {
 // runCases executes every case on the implementation, replays the request lines on the Lean driver,
 // and turns every non-ok verdict into a shrunk, classified Failure.
 func runCases(run *Run, cases []Case, ex Executor, cl Classifier) {
+	runCasesSkel(run, cases, ex, cl, nil)
+}
+
+func runCasesSkel(run *Run, cases []Case, ex Executor, cl Classifier, skel map[int]string) {
 	n := len(cases)
 	lines := make([][]string, n)
 	var wg sync.WaitGroup
@@ -89,9 +93,17 @@ func runCases(run *Run, cases []Case, ex Executor, cl Classifier) {
 	for i := range cases {
 		run.Evals += len(lines[i])
 		run.ValTraces++
-		sk := skeletonOf(cases[i].Ops)
-		if len(cases[i].Ops) >= 3 {
-			run.Distinct[sk] = true
+		if skel != nil {
+			if sk, ok := skel[i]; ok && sk != "" {
+				run.Distinct[sk] = true
+			}
+		} else if len(cases[i].Ops) >= 3 {
+			run.Distinct[skeletonOf(cases[i].Ops)] = true
+		}
+		for _, rp := range replies[i] {
+			if strings.HasPrefix(rp, "SKIP") {
+				run.Hist["skipped(outside-spec-fragment)"]++
+			}
 		}
 		for _, o := range cases[i].Ops {
 			run.Hist[o.Args[0]]++
@@ -110,7 +122,7 @@ func runCases(run *Run, cases []Case, ex Executor, cl Classifier) {
 		if li < 0 && crash < 0 {
 			continue
 		}
-		f := Failure{CaseIdx: cases[i].Idx, LineIdx: li, Kind: kind}
+		f := Failure{CaseIdx: cases[i].Idx, LineIdx: li, Kind: kind, Note: cases[i].Note}
 		if crash >= 0 && (li < 0 || crash <= li) {
 			f.Kind, f.LineIdx, f.Line, f.Reply = "CRASH", crash, lines[i][crash], lines[i][crash]
 		} else {
@@ -174,7 +186,7 @@ func report(run *Run, audit *Audit, evidencePath string) int {
 		name := fmt.Sprintf("%s-seed%d-case%d", strings.ToLower(f.Kind), run.Seed, f.CaseIdx)
 		p := writeReplay(run.Prop, name, map[string]interface{}{
 			"property": run.Prop, "kind": f.Kind, "what": what, "seed": run.Seed, "case": f.CaseIdx,
-			"failing_request": f.Line, "driver_reply": f.Reply, "requests": f.Lines,
+			"failing_request": f.Line, "driver_reply": f.Reply, "requests": f.Lines, "lua_source": f.Source, "note": f.Note,
 		})
 		if noInput {
 			fmt.Printf("VIOLATION property=%s replay=%s no-failing-input-found\n", run.Prop, p)
@@ -226,8 +238,13 @@ func main() {
 	if *luasem != "" {
 		os.Exit(devLuaSem(*luasem))
 	}
-	fn, ok := props[*prop]
-	if !ok {
+	var fns []func(*Run)
+	for _, suffix := range []string{"", "M", "P"} {
+		if fn, ok := props[*prop+suffix]; ok {
+			fns = append(fns, fn)
+		}
+	}
+	if len(fns) == 0 {
 		fmt.Println("unknown property", *prop)
 		os.Exit(2)
 	}
@@ -237,7 +254,9 @@ func main() {
 	run := NewRun(*prop, *tier, *seed)
 	run.Trusted = []string{"Lean 4.33 kernel", "axioms: propext, Classical.choice, Quot.sound only (audited per theorem)",
 		"tools/extract (go/ast → Lean constants)", "correspondence harness + driver canonicalisation"}
-	fn(run)
+	for _, fn := range fns {
+		fn(run)
+	}
 	audit := loadAudit(*auditPath)
 	ev := *evidence
 	if ev == "" {
